@@ -248,7 +248,7 @@ def prop_poly_tensor(case, stats):
 # case strategies
 # ---------------------------------------------------------------------------
 
-_NS = st.sampled_from([1, 2, 2, 3, 3, 3, 4, 4, 5, 6])
+_NS = st.sampled_from([1, 2, 2, 2, 3, 3, 3, 4, 4, 5, 5, 6])
 
 
 @st.composite
@@ -296,8 +296,8 @@ def poly_cases(draw, driver, d=None, tier='quick', NS=None):
     if driver == 'tensor':
         case['d'] = d
     if driver in ('jacobian', 'jac_vec', 'hess_vec'):
-        case['dtype_arg'] = draw(st.sampled_from([None, None, None, 'float']))
-    case['as_list'] = draw(st.integers(0, 7)) == 0
+        case['dtype_arg'] = draw(st.sampled_from([None, None, None, None, 'float']))
+    case['as_list'] = draw(st.sampled_from([False] * 7 + [True]))
     return case
 
 
@@ -504,7 +504,8 @@ def buckets(tier):
     ]
     for d in range(1, 6):
         bl.append(Bucket('poly:tensor:d=%d' % d, (lambda d=d: poly_cases('tensor', d=d, tier=tier, NS=_tensor_NS(d, tier))),
-                         prop_poly_tensor, q(60, 500), nontrivial=_nt, classes=_cl, shards=q(2, 8), weight=3.0 * d * d))
+                         prop_poly_tensor, q(60, 500) if d <= 2 else q(30, 250), nontrivial=_nt, classes=_cl,
+                         shards=q(2, 6) if d <= 2 else q(3, 12), weight=3.0 * d * d))
     if tier == 'thorough':
         # the two largest tables (126 rays, 13-20 s per generate_Gamma_and_rays call, two calls per case)
         for (N, d) in ((6, 4), (5, 5)):
